@@ -367,6 +367,22 @@ def run_table(case, ctx):
             return ctx.fail(f"table-{case['rows'][0]}/not-uniform-or-wrong", f"{case['rows']}: got {got} want {want}")
         if list(r.column_names()) != names:
             return ctx.fail(f"table-{case['rows'][0]}/names", f"{r.column_names()} vs {names}")
+    # integer row indices: t[i] is the i-th row for -n <= i < n (Python sequence semantics), anything else is an error
+    # (raised by t[i] or as soon as the row is read)
+    for i in range(-2 * n - 2, n + 3):
+        ctx.ev()
+        want_row = [freeze(vals[i]) for _, vals in cols] if -n <= i < n else None
+        try:
+            got_row = [freeze(x) for x in t[i]]
+        except Exception as e:  # noqa: BLE001
+            if want_row is not None:
+                return ctx.fail(f"table-row-index/raised/{type(e).__name__}", f"t[{i}] on {n} rows: {e}")
+            continue
+        if want_row is None:
+            where = "below" if i < 0 else "above"
+            return ctx.fail(f"table-row-index/out-of-range-accepted/{where}", f"t[{i}] on {n} rows returned {got_row}")
+        if got_row != want_row:
+            return ctx.fail("table-row-index/wrong-row", f"t[{i}] on {n} rows: {got_row}, columns give {want_row}")
     # missing column must be an error (single name and inside a tuple)
     miss = case["missing"]
     exists = False
